@@ -17,6 +17,7 @@ func minimise(t *testing.T, e *Engine, prop string, res *WorkerResult) {
 		res.Infra = append(res.Infra, "replay file: "+err.Error())
 		return
 	}
+	setSoftKnown(rf.Known)
 	budget := time.Duration(envInt("VERIF_BUDGET_S", 20)) * time.Second
 	start := time.Now()
 	tier := rf.Tier
